@@ -112,13 +112,27 @@ func (p *predPlugin) Predicates(args *si.PredicatesArgs) error {
 	p.Lock()
 	defer p.Unlock()
 	k := args.AllocationKey + "|" + args.NodeID
-	if p.deny[k] {
+	// "key|node" denies in both modes, "key|node|a" only when asked in allocate mode (a reservation would be fine)
+	if p.deny[k] || (args.Allocate && p.deny[k+"|a"]) {
 		return fmt.Errorf("predicate denied %s", k)
 	}
 	if args.Allocate {
 		p.asked[k] = true
 	}
 	return nil
+}
+
+// takeAsked returns (and forgets) the (key|node) pairs the plugin accepted in allocate mode since the last call
+func (p *predPlugin) takeAsked() []string {
+	p.Lock()
+	defer p.Unlock()
+	out := make([]string, 0, len(p.asked))
+	for k := range p.asked {
+		out = append(out, k)
+	}
+	sort.Strings(out)
+	p.asked = map[string]bool{}
+	return out
 }
 func (p *predPlugin) PreemptionPredicates(args *si.PreemptionPredicatesArgs) *si.PreemptionPredicatesResponse {
 	p.Lock()
@@ -434,6 +448,7 @@ func (d *coreDrv) applyWithTap(op map[string]interface{}, tap func([]map[string]
 		msgs := d.s.h.take()
 		if !d.lite {
 			line["msgs"] = msgs
+			line["preds"] = d.s.pred.takeAsked()
 			line["st"] = d.s.dump()
 		}
 		if tap != nil {
@@ -523,6 +538,11 @@ func (d *coreDrv) exec(name string, op map[string]interface{}, line map[string]i
 		// "interrupt": an RM request (release by key, release of all allocations, application removal, node decommission)
 		// that the RM event goroutine would handle between the scheduling decision and its confirmation
 		// (PartitionContext.allocate): run at the yield point, once
+		// "waitExpired": this cycle sees every reservation as older than the reservation wait timeout
+		if jsonBool(op["waitExpired"]) {
+			old := objects.VerifSetReservationWaitTimeout(0)
+			defer objects.VerifSetReservationWaitTimeout(old)
+		}
 		if in, ok := op["interrupt"].(map[string]interface{}); ok {
 			done := false
 			scheduler.VerifYieldHook = func(point string) {
